@@ -10,9 +10,12 @@ for d in sorted(glob.glob(os.path.join(V, 'seeded', '*'))):
     m = json.load(open(mp))
     sid = os.path.basename(d)
     desc = m.get('description', '')
-    t = re.match(r'\*\*(.*?)\*\*', desc.strip())
-    title = (t.group(1) if t else desc[:100]).strip().rstrip('.')
-    title = re.sub(r'^m\d+\s*[-—–]+\s*', '', title)
+    first = next((l for l in desc.splitlines() if l.strip()), '')
+    first = re.sub(r'^[#*\s]+', '', first.strip())
+    t = re.match(r'(.*?)\*\*', first)
+    title = (t.group(1) if t and t.group(1).strip() else first).strip().strip('*').rstrip('.')
+    title = re.sub(r'^(C\d\d\s*[/-]+\s*)?(mutant\s+)?m\d+\s*[-—–:]+\s*', '', title, flags=re.I)
+    title = re.sub(r'\s*\|\s*', ' / ', title)[:170]
     caught = ', '.join(m.get('caught_by', [])) or 'MISSED'
     note = m.get('strengthened', '')
     rows.append(f"| {sid} | {title} | {m.get('needs_to_manifest', '')} | {caught}{(' — ' + note) if note else ''} |")
